@@ -285,6 +285,11 @@ def b_whoami(tok, ctx):
     return [tok, mark if isinstance(mark, str) else None]
 
 
+def b_status(tok):
+    """Published as ``_status``: a JSON-RPC method name may be any string, also one that looks private in Python."""
+    return ['status', tok]
+
+
 def b_explode(tok):
     """Never reached: the validator attached to this method fails with an ordinary exception (not a ValidationError)."""
     return tok
@@ -298,6 +303,11 @@ def b_vecho(tok, value=None):
     return [tok, value]
 
 
+def b_vstatic(tok):
+    """Body of ``vstatic``: a @staticmethod exposed by the class-based view."""
+    return ['static', tok]
+
+
 def b_ctx_echo(ctx, tok, value=None):
     return value
 
@@ -305,8 +315,9 @@ def b_ctx_echo(ctx, tok, value=None):
 BODIES: Dict[str, Callable[..., Any]] = {
     'echo': b_echo, 'add': b_add, 'none': b_none, 'pair': b_pair,
     'fail_proto': b_fail_proto, 'fail_exc': b_fail_exc, 'slow': b_slow, 'op_ab': b_op_ab, 'op_ba': b_op_ba, 'typed': b_typed,
-    'typed_default': b_typed_default, 'vecho': b_vecho, 'fail_typed': b_fail_typed, 'mixed_keys': b_mixed_keys,
+    'typed_default': b_typed_default, 'vecho': b_vecho, 'vstatic': b_vstatic, 'fail_typed': b_fail_typed, 'mixed_keys': b_mixed_keys,
     'single': b_single, 'explode': b_explode, 'kwonly': b_kwonly, 'whoami': b_whoami,
+    '_status': b_status,
 }
 SIGNATURES: Dict[str, inspect.Signature] = {name: inspect.signature(fn) for name, fn in BODIES.items()}
 
@@ -327,9 +338,21 @@ def direct(name: str, args: Tuple[Any, ...] = (), kwargs: Optional[Dict[str, Any
     return ('ok', jnorm(value))
 
 
-VIEW_METHODS = ('vecho',)
+VIEW_METHODS = ('vecho', 'vstatic')
 DEFERRED = ('pair', 'add', 'fail_exc')   # served through a plain function that returns the coroutine
 _MISSING: Any = type('Missing', (), {'__repr__': lambda self: 'MISSING'})()
+
+
+def _callable_instance(fn: Callable[..., Any], body: Callable[..., Any]) -> Any:
+    """An object that is called like the function (users register service objects with __call__)."""
+    class CallableMethod:
+        def __call__(self, *args: Any, **kwargs: Any) -> Any:
+            return fn(*args, **kwargs)
+
+    obj = CallableMethod()
+    obj.__signature__ = inspect.signature(body)  # type: ignore[attr-defined]
+    obj.__name__ = getattr(body, '__name__', 'callable')  # type: ignore[attr-defined]
+    return obj
 
 
 class Service:
@@ -355,10 +378,20 @@ class Service:
                 # not a coroutine function, but it returns a coroutine: an async method behind an ordinary decorator
                 self.methods[name] = self._defer(name, body, self.methods[name])
             self.is_coro[name] = coro
+            # the shape of the registered callable: a plain function, a functools.partial around it, or an instance of a
+            # class with __call__ (carrying the function's signature); the context-taking method stays a function
+            if name not in ('whoami', 'echo', 'explode', 'typed', 'typed_default'):
+                shape = world.ch.choice(['function', 'function', 'partial', 'callable'], 'svc.shape')
+                if shape == 'partial':
+                    self.methods[name] = ft.partial(self.methods[name])
+                elif shape == 'callable':
+                    self.methods[name] = _callable_instance(self.methods[name], body)
         for name in VIEW_METHODS:
             self.is_coro[name] = flavour != 'sync'
+        self.is_coro['vstatic'] = False      # a plain static method in every flavour
         self.is_coro['whoami_explicit'] = self.is_coro['whoami']
         self.is_coro['echo_guarded'] = self.is_coro['echo']
+        self.is_coro['\u043d\u0435\u0442/none \u2713 \U0001F600'] = self.is_coro['none']
 
     # -- wrappers ----------------------------------------------------------------------------------
     def _enter(self, name: str, args: Tuple[Any, ...], kwargs: Dict[str, Any]) -> str:
@@ -477,7 +510,7 @@ class Service:
                 reg.add(method, name='whoami_explicit')      # the same function object, context-less
                 continue
             reg.add(method, name=name)
-        if names is None or 'vecho' in names:
+        if names is None or any(v in names for v in VIEW_METHODS):
             # half of the services publish the view with a context whose name is also a parameter name of its method
             # (the context of a view goes to the constructor; the method parameter stays the caller's)
             if self.world.ch.flag(1, 2, 'svc.view_context'):
@@ -520,6 +553,12 @@ class Service:
                 world.rec(node, 'method.exit', method='vecho', tok=tok, outcome='return')
                 return [self._seen, None if value is _MISSING else value]
         SvcView.vecho = vecho  # type: ignore[attr-defined]
+
+        def vstatic(tok):  # type: ignore[no-untyped-def]
+            world.rec(node, 'method.enter', method='vstatic', tok=tok, args={}, gen=service.generation)
+            world.rec(node, 'method.exit', method='vstatic', tok=tok, outcome='return')
+            return ['static', tok]
+        SvcView.vstatic = staticmethod(vstatic)  # type: ignore[attr-defined]
         return SvcView
 
     def executions(self) -> List[Tuple[str, Any]]:
